@@ -149,16 +149,77 @@ fn lines_for(idx: usize, name: &str, src: &str) -> Result<BTreeSet<i32>, ()> {
     r.map_err(|_| ())
 }
 
+static DONE: std::sync::atomic::AtomicUsize = std::sync::atomic::AtomicUsize::new(0);
+static CUR_DET: std::sync::atomic::AtomicUsize = std::sync::atomic::AtomicUsize::new(0);
+static FINISHED: std::sync::atomic::AtomicBool = std::sync::atomic::AtomicBool::new(false);
+static PARTIAL: std::sync::Mutex<String> = std::sync::Mutex::new(String::new());
+const FILE_TIME_LIMIT_S: u64 = 90;
+
+// All files of the directory, analysed one after the other on a worker thread with a large stack (as the solstat
+// binary does).  If one file is not finished within FILE_TIME_LIMIT_S seconds the analysis is taken not to
+// terminate on it: its result file says `hang <detector>`, the stuck thread is abandoned and a new worker goes on
+// with the next file (C04: a hang is an abort the user sees).
 fn cmd_prog(dir: &str, want_walk: bool, want_dump: bool) {
+    use std::sync::atomic::Ordering::SeqCst;
     let mut files: Vec<_> = std::fs::read_dir(dir)
         .unwrap()
         .map(|e| e.unwrap().path())
         .filter(|p| p.extension().map(|x| x == "sol").unwrap_or(false))
         .collect();
     files.sort();
+    let files = std::sync::Arc::new(files);
+    let mut start = 0usize;
+    loop {
+        DONE.store(start, SeqCst);
+        FINISHED.store(false, SeqCst);
+        let fs = files.clone();
+        std::thread::Builder::new()
+            .stack_size(2usize << 30)
+            .spawn(move || {
+                prog_files(&fs[start..], want_walk, want_dump);
+                FINISHED.store(true, SeqCst);
+            })
+            .expect("spawn");
+        let mut last = start;
+        let mut since = std::time::Instant::now();
+        loop {
+            std::thread::sleep(std::time::Duration::from_millis(20));
+            if FINISHED.load(SeqCst) {
+                return;
+            }
+            let d = DONE.load(SeqCst);
+            if d != last {
+                last = d;
+                since = std::time::Instant::now();
+            } else if since.elapsed().as_secs() >= FILE_TIME_LIMIT_S {
+                let dets = detectors();
+                let k = CUR_DET.load(SeqCst);
+                let name = if k < dets.len() { dets[k].0 } else { "other" };
+                let mut p = files[last].clone();
+                p.set_extension("res");
+                let partial = PARTIAL.lock().map(|g| g.clone()).unwrap_or_default();
+                let head = if partial.starts_with("parse ok") { partial } else { String::from("parse ok\n") };
+                std::fs::write(p, format!("{}hang {}\n", head, name)).unwrap();
+                start = last + 1;
+                break;
+            }
+        }
+        if start >= files.len() {
+            return;
+        }
+    }
+}
+
+fn prog_files(files: &[std::path::PathBuf], want_walk: bool, want_dump: bool) {
+    use std::sync::atomic::Ordering::SeqCst;
     let dets = detectors();
     let targets = all_targets();
     for f in files {
+        let f = f.clone();
+        CUR_DET.store(usize::MAX, SeqCst);
+        if let Ok(mut g) = PARTIAL.lock() {
+            g.clear();
+        }
         let src = std::fs::read_to_string(&f).unwrap();
         let mut out = String::new();
         let parsed = catch_unwind(AssertUnwindSafe(|| solang_parser::parse(&src, 0)));
@@ -170,7 +231,11 @@ fn cmd_prog(dir: &str, want_walk: bool, want_dump: bool) {
                 if want_dump {
                     out.push_str(&format!("dump {:?}\n", su));
                 }
+                if let Ok(mut g) = PARTIAL.lock() {
+                    *g = out.clone();
+                }
                 for (i, (name, f)) in dets.iter().enumerate() {
+                    CUR_DET.store(i, SeqCst);
                     let su2 = su.clone();
                     match catch_unwind(AssertUnwindSafe(|| f(su2))) {
                         Ok(set) => out.push_str(&format!("det {} ok {}\n", name, fmt_locs(set))),
@@ -239,6 +304,7 @@ fn cmd_prog(dir: &str, want_walk: bool, want_dump: bool) {
         let mut p = f.clone();
         p.set_extension("res");
         std::fs::write(p, out).unwrap();
+        DONE.fetch_add(1, SeqCst);
     }
 }
 
@@ -306,18 +372,9 @@ fn main() {
     let args: Vec<String> = std::env::args().collect();
     match args.get(1).map(|s| s.as_str()) {
         Some("prog") => {
-            // the library is called on a thread with a large stack (as the solstat binary does), so that deeply
-            // nested but parseable files are analysed instead of overflowing the 8 MiB main-thread stack
-            let args2 = args.clone();
-            std::thread::Builder::new()
-                .stack_size(2usize << 30)
-                .spawn(move || {
-                    let flags: Vec<&str> = args2[3..].iter().map(|s| s.as_str()).collect();
-                    cmd_prog(&args2[2], flags.contains(&"walk"), !flags.contains(&"nodump"))
-                })
-                .expect("spawn")
-                .join()
-                .expect("join");
+            let flags: Vec<&str> = args[3..].iter().map(|s| s.as_str()).collect();
+            cmd_prog(&args[2], flags.contains(&"walk"), !flags.contains(&"nodump"));
+            std::process::exit(0); // abandoned (non-terminating) worker threads die with the process
         }
         Some("util") => cmd_util(),
         _ => {
